@@ -254,6 +254,24 @@ def check(case, rec):
             "%r" % at["creation-date"])
     if at["format-url"] != "http://biom-format.org":
         bad("format-url", repr(at["format-url"]))
+    if n and m and writer != "convert" and len(gen_by) % 3 == 1:
+        # the same object written again after an in-place edit: the new file
+        # describes what the table holds now, in both copies
+        ax = "observation" if len(gen_by) % 2 else "sample"
+        t.transform(lambda v, i, md: v * 2 + 1, axis=ax, inplace=True)
+        now = observe.snapshot(t)
+        with h5spec.mem_file() as f:
+            t.to_hdf5(f, gen_by, compress=case["compress"])
+            dec2 = h5spec.decode(f)
+        rec.cls("written-again-after-in-place-edit")
+        if dec2["problems"]:
+            bad("spec-conformance", "second write: " +
+                "; ".join(dec2["problems"]))
+        for key in ("csr_dense", "csc_dense"):
+            if dec2[key] != now["rows"]:
+                bad("stale-copy-after-edit", "after an in-place transform "
+                    "along %s and a second to_hdf5, %s decodes to %r, the "
+                    "table holds %r" % (ax, key, dec2[key], now["rows"]))
     noncanon = lay.get("sorted") is False or lay.get("format") != "csr"
     rec.nt((nnz >= 1 and (noncanon or src["obs_md"] is not None or
                           src["samp_md"] is not None)) or n == 0 or m == 0)
@@ -277,5 +295,9 @@ def _large(n, m, dense):
             "sub": False, "date_mode": "explicit"}
 
 
+# ... and array lengths one past a power of two (block-wise writers)
 REGRESSIONS = [_large(182, 182, True), _large(32769, 1, False),
-               _large(2, 32770, False)]
+               _large(2, 32770, False), _large(4096, 1, False),
+               _large(1, 8192, False), _large(4097, 1, True),
+               _large(1025, 1, True), _large(257, 255, True),
+               _large(65537, 1, True)]
